@@ -168,6 +168,26 @@ theorem parseOkpCurve_ok (o : Oracle) (c : Okp) (m : Obj) (key k : Key)
           obtain ⟨priv, hp, h⟩ := PO.run_bind_eq_ok _ _ _ _ h
           simp at hp
 
+/-- **per-member length rule (OKP)**: whatever else the JWK holds (in particular whatever `d` looks like), an `x` of
+    another length than the curve's is rejected — the check is on `x` alone, before `d` is looked at -/
+theorem okp_x_length_enforced (o : Oracle) (c : Okp) (m : Obj) (key : Key) (x : Bytes)
+    (hx : (mustBytes m "x").run o = .ok x) (hl : x.length ≠ c.len) :
+    (parseOkpCurve c m key).run o = .err "size" := by
+  unfold parseOkpCurve
+  simp [PO.run_bind, hx, hl]
+
+/-- …and a `d` of another length than the curve's is rejected, whatever `x` is (no compensation by the length of
+    `x`: the sum of the two lengths is never what is tested) -/
+theorem okp_d_length_enforced (o : Oracle) (c : Okp) (m : Obj) (key : Key) (x d : Bytes)
+    (hx : (mustBytes m "x").run o = .ok x) (hd : (getBytes m "d").run o = .ok (some d)) (hl : d.length ≠ c.len) :
+    ∃ cls, (parseOkpCurve c m key).run o = .err cls := by
+  unfold parseOkpCurve
+  by_cases hxl : x.length ≠ c.len
+  · exact ⟨"size", by simp [PO.run_bind, hx, hxl]⟩
+  · refine ⟨"size", ?_⟩
+    simp only [PO.run_bind, hx, hxl, if_false, hd]
+    simp [hl]
+
 /-! ## RSA -/
 
 def rsaValidS (o : Oracle) (p : RsaPub) (d : Nat) (primes : List Nat) : Bool :=
